@@ -7,3 +7,5 @@ import Blackbird.Props.C15
 #print axioms Blackbird.C15_no_braces_not_template
 #print axioms Blackbird.C15_reference_serialised_bare
 #print axioms Blackbird.C15_variable_block_arrays
+#print axioms Blackbird.C15_tdm_program_loads_back
+#print axioms Blackbird.C15_reference_roundtrip
